@@ -572,6 +572,8 @@ fn run_shard(v: &Variant, cases: usize, seed: u64, tier: Tier, shard: usize) -> 
     config.cases = cases as u32;
     config.failure_persistence = None;
     config.max_shrink_iters = 3000;
+    // shrinking quality only: the wall clock never decides a verdict (ms)
+    config.max_shrink_time = 45_000;
     config.source_file = None;
     config.verbose = 0;
     let mut sb = [0u8; 32];
